@@ -125,9 +125,14 @@ class RateLimiter(BaseRateLimiter):
         max_interval = 0
         if not self.rules.get("ip"):
             return
-        for rules in self.rules["ip"].values():
-            rule_res = max(rules)[0]
-            max_interval = max(rule_res, max_interval)
+        # the timestamps of an address are counted by the "ip" rules
+        # and by the rules for that specific address
+        for key, commands in self.rules.items():
+            if key == "global":
+                continue
+            for rules in commands.values():
+                rule_res = max(rules)[0]
+                max_interval = max(rule_res, max_interval)
 
         now = self._timestamp()
         to_del = []
